@@ -135,6 +135,13 @@ class G:
             # a bare variable as a condition: true when it holds anything but None (0, 0.0 and "" exist)
             t, v = r.choice(self.anyvars)
             return (t, f"(BVarSet {v})")
+        if c < 0.66:
+            # empty() with several arguments: true only when every one of them is empty
+            cols = r.sample([5, 5, 3, 4], r.choice([2, 3]))
+            q = f"(BEmpty {cols[-1]}%nat)"
+            for i in reversed(cols[:-1]):
+                q = f"(BAnd (BEmpty {i}%nat) {q})"
+            return ("empty(" + ", ".join(f"#{HDR[i]}" for i in cols) + ")", q)
         if c < 0.72:
             i = r.choice([5, 5, 3])
             k = r.choice(["exists", "empty", "bare"])
